@@ -1,5 +1,5 @@
 """Shared machinery for the local-part properties (C02, C03, C12, C15 monitors, C17 relations)."""
-import unitdb, scanex
+import unitdb, scanex, forkmap
 from scanex import END, NA, BAD
 from spec import localpart as LP
 from report import AnalysisBroken
@@ -63,12 +63,16 @@ def alphabet(tus_fns, extra_consts=(), utf8=False):
 
 def compare_with_spec(ck, rule, tu, fname, machine_factory, spec, symbols, terms, site, tag=''):
     """language equality of one extracted scanner with a spec DFA; reports one violation per mismatch class"""
-    total_cfg = total_tr = 0
-    found = {}
-    for term in terms:
+    res = forkmap.forkmap([spec_task(tu, machine_factory, spec, symbols, t) for t in terms])
+    return report_spec(ck, rule, tu, fname, res, site, tag)
+
+
+def spec_task(tu, machine_factory, spec, symbols, term):
+    def task():
+        found = {}
         m = machine_factory(term)
         d = scanex.DFAMachine('spec', *spec)
-        def leaf(results, witness, m=m, term=term):
+        def leaf(results, witness):
             (rc, node), (src, _) = results
             acc_i = (rc == 0); acc_s = (src == 0)
             if acc_i == acc_s: return
@@ -79,17 +83,26 @@ def compare_with_spec(ck, rule, tu, fname, machine_factory, spec, symbols, terms
                 cls = 'rejects-valid:' + errname(tu, rc)
             cur = found.get(cls)
             if cur is None or len(witness) < len(cur['w']):
-                found[cls] = {'w': list(witness), 'rc': rc, 'node': node, 'term': term}
+                found[cls] = {'w': list(witness), 'rc': rc, 'at': where(node) if node else '?', 'term': term}
         ex = scanex.Explorer([m, d], symbols, term)
         ex.run(leaf)
-        total_cfg += ex.configs; total_tr += ex.transitions
+        return ex.configs, ex.transitions, found, getattr(m, 'overruns', 0)
+    return task
+
+
+def report_spec(ck, rule, tu, fname, results, site, tag=''):
+    total_cfg = sum(r[0] for r in results); total_tr = sum(r[1] for r in results)
+    found = {}
+    for r in results:
+        for cls, f in r[2].items():
+            if cls not in found or len(f['w']) < len(found[cls]['w']): found[cls] = f
     ck.mc(total_cfg, total_tr)
-    ok = not found
-    rule.instance(site + tag, ok=True if ok else True, detail={'configurations': total_cfg, 'transitions': total_tr, 'terminators': [hex(t) for t in terms]}) if ok else None
+    if not found:
+        rule.instance(site + tag, ok=True, detail={'configurations': total_cfg, 'transitions': total_tr})
     for cls, f in sorted(found.items()):
         w = [s for s in f['w'] if s != END]
         rule.instance(site + tag, ok=False, wclass=cls, witness=scanex.show(w),
                       what=f'{fname}{tag}: {"accepts" if f["rc"] == 0 else "rejects with " + errname(tu, f["rc"])} {scanex.show(w)!r} '
-                           f'(return at {where(f["node"]) if f["node"] else "?"}; byte after the local part = {f["term"]:#x}); the specification says the opposite [{cls}]',
-                      detail={'witness_symbols': [s if isinstance(s, int) else str(s) for s in w], 'rc': f['rc'], 'return_at': where(f['node']) if f['node'] else None, 'terminator': f['term']})
+                           f'(return at {f["at"]}; byte after the local part = {f["term"]:#x}); the specification says the opposite [{cls}]',
+                      detail={'witness_symbols': [s if isinstance(s, int) else str(s) for s in w], 'rc': f['rc'], 'return_at': f['at'], 'terminator': f['term']})
     return total_cfg, total_tr, found
